@@ -994,6 +994,9 @@ def inrun_case(arg):
                 owner[id(Lv)] = S
         u0 = ctrl.MS[0].levels[0].prob.u_exact(0.0)
         ctrl.run(u0=u0, t0=0.0, Tend=2 * P * dt)
+    except Exception as e:  # noqa: BLE001  (a valid multi-level run must not raise)
+        if not rec['viol']:
+            rec['viol'].append(({'kind': 'valid_multilevel_run_raised', 'problem': prob}, {'error': f'{type(e).__name__}: {e}'[:200]}))
     finally:
         BaseTransfer.restrict = orig
     return rec
